@@ -26,7 +26,7 @@ def repo():
 
 
 def budget(tier):
-    return 30 if tier == 'quick' else 300
+    return 90 if tier == "quick" else 300      # last-resort budget per obligation (wall clock): generous, so that verdicts do not flip on a busy machine
 
 
 def smt_size(ob):
@@ -171,6 +171,8 @@ class SpecTask(Task):
                     d = d2
                 if d['status'] == 'refuted' and not (d.get('replay') or {}).get('confirmed'):
                     need_fallback = True
+            elif r.status != 'discharged':
+                need_fallback = True        # the solvers gave up: look for a failing input natively (bounded) before reporting 'undecided'
             out['results'].append(d)
         if need_fallback:
             fb = self.fallback(tier)
